@@ -285,18 +285,20 @@ Fixpoint extra_urls (children : list child) (j : nat) (ds : list str) (acc : lab
       else None
   end.
 
+(* AppendExtraLabelsHandler on one layer child [c] whose annotations (as left by the wrapped handler) are [l0] *)
+Definition extra_over (l0 : labels) (children : list child) (pf : Z) (c : child) : option labels :=
+  let l1 := lset_absent l0 KUrls (urls_value KUrls (c_urls c)) in
+  let l2 := lset_absent l1 KPrefetch (show_Z pf) in
+  match lget l2 KCriLayers with
+  | None => Some l2
+  | Some nl => extra_urls children 0 (split_comma nl) l2
+  end.
+
 Definition extra_ann (children : list child) (ref : str) (pf : Z) (mdigest : str) (suffix : list child)
   : option labels :=
   match suffix with
   | [] => Some []
-  | c :: _ =>
-      let l0 := cri_ann ref mdigest suffix in
-      let l1 := lset_absent l0 KUrls (urls_value KUrls (c_urls c)) in
-      let l2 := lset_absent l1 KPrefetch (show_Z pf) in
-      match lget l2 KCriLayers with
-      | None => Some l2
-      | Some nl => extra_urls children 0 (split_comma nl) l2
-      end
+  | c :: _ => extra_over (cri_ann ref mdigest suffix) children pf c
   end.
 
 Fixpoint write_default (manifest : bool) (ref : str) (pf : Z) (suffix : list child) : list labels :=
